@@ -21,7 +21,7 @@ LEVELS = {'C18': 'exploration'}
 WALL_LIMIT = {('C18', 'quick'): 180, ('C18', 'thorough'): 180}
 SHRINK = {'C18': (45, 60)}
 PROBES = {'C18': web.PROBES['C18'] + ['crawl_level', 'crawl.robots_perpetual_5xx', 'crawl.robots_reset', 'crawl.robots_ok', 'crawl.robots_redirect_loop', 'crawl.robots_redirect_chain', 'crawl.perpetual_5xx', 'crawl.reset', 'crawl.refused', 'crawl.stall', 'crawl.redirect_loop', 'crawl.partial_body', 'crawl.partial_body_small',
-                                     'crawl.tries_exhausted', 'crawl.several_starts', 'crawl.waitretry', 'crawl.retry_connrefused', 'crawl.concurrency>1', 'crawl.with_scope_options']}
+                                     'crawl.tries_exhausted', 'crawl.several_starts', 'crawl.waitretry', 'crawl.retry_connrefused', 'crawl.concurrency>1', 'crawl.with_scope_options', 'crawl.sitemaps_perpetual_5xx', 'crawl.sitemaps_reset', 'crawl.sitemaps_404']}
 INFO = {'C18': dict(web.INFO['C18'], rule=web.INFO['C18']['rule'] + ' ; crawl level: site with 1..3 perpetually failing URLs (kind drawn) x --tries '
                     '{1,2,3,5,7,10} x 1..4 start URLs x --max-redirect x --retry-connrefused x --waitretry x concurrency; visits are identified by the item try count '
                     'seen at the server')}
@@ -80,6 +80,12 @@ def run(tape, prop, tier):
                 opts[key] = val
                 r.probes['crawl.with_scope_options'] += 1
         extra = ['--timeout', '30', '--waitretry', str(waitretry)]
+        sitemaps_mode = tape.choice((None, None, None, 'perpetual_5xx', 'reset', '404'), 'sitemaps.mode')
+        if sitemaps_mode:
+            # --sitemaps queues /robots.txt and /sitemap.xml of every start URL's origin as URLs of their own: they are bound by
+            # --tries like any other URL when they keep failing
+            extra.append('--sitemaps')
+            r.probes['crawl.sitemaps_' + sitemaps_mode] += 1
         if retry_refused:
             extra.append('--retry-connrefused')
             r.probes['crawl.retry_connrefused'] += 1
@@ -118,6 +124,18 @@ def run(tape, prop, tier):
                         loop_state[res.url] = n + 1
                         server.send(conn, 302, 'Found', [('Location', res.path + '?hop=%d' % n), ('Content-Type', 'text/plain')], b'again')
                 server.behaviour[(res.origin.key(), res.target)] = beh
+            if sitemaps_mode:
+                def sm(conn, entry, rs):
+                    if sitemaps_mode == 'perpetual_5xx':
+                        server.send(conn, 503, 'Busy', [('Content-Type', 'text/plain')], b'busy')
+                    elif sitemaps_mode == 'reset':
+                        conn.reset()
+                    else:
+                        server.send(conn, 404, 'Not Found', [('Content-Type', 'text/plain')], b'none')
+                for o in site.origins:
+                    server.behaviour[(o.key(), '/sitemap.xml')] = sm
+                    if not robots_mode:
+                        server.behaviour[(o.key(), '/robots.txt')] = sm
             if robots_mode:
                 def rb(conn, entry, rs):
                     entry['robots'] = True
